@@ -995,7 +995,12 @@ func (r *multiCIDRRangeAllocator) orderedMatchingClusterCIDRs(node *corev1.Node,
 		return nil, err
 	}
 	if clusterCIDRList, ok := r.cidrMap[defaultSelector.String()]; ok {
-		matchingCIDRs = append(matchingCIDRs, clusterCIDRList...)
+		for _, clusterCIDR := range clusterCIDRList {
+			// Same rule as above: terminating ClusterCIDRs are only considered for release.
+			if !occupy || !clusterCIDR.Terminating {
+				matchingCIDRs = append(matchingCIDRs, clusterCIDR)
+			}
+		}
 	}
 	return matchingCIDRs, nil
 }
